@@ -134,6 +134,8 @@ func runC03(r *Run) {
 	}
 	// a stream whose status trailer was read before the connection failed: the caller gets that status (c02b.go)
 	c02CompletedThenConnFailWith(r, true)
+	// the status over every shipped transport (topo.go)
+	topoSweep(r, "status")
 	// a call abandoned with unread envelopes, then the next call: its outcome is its own handler's (c05b.go)
 	if r.Want("backlog") {
 		c05Backlog(r)
@@ -247,8 +249,23 @@ func c03Product(r *Run) {
 		}
 	}
 	rng.Shuffle(len(specs), func(i, j int) { specs[i], specs[j] = specs[j], specs[i] })
+	// every code through every kind of call at least once, whatever the sampling above picked
+	forced := map[int]string{}
+	for code := 1; code <= 16; code++ {
+		for _, m := range modes {
+			forced[len(specs)] = m
+			specs = append(specs, errSpec{Kind: "status", Code: code, Msg: "boom", Details: dets[1], Outer: "outer"})
+			if code%5 == 2 {
+				forced[len(specs)] = m
+				specs = append(specs, errSpec{Kind: "wrapped", Code: code, Msg: "boom", Details: dets[1], Outer: "outer"})
+			}
+		}
+	}
 	for i, sp := range specs {
 		mode := modes[i%4]
+		if m, ok := forced[i]; ok {
+			mode = m
+		}
 		positions := []int{0}
 		if mode != "unary" {
 			positions = []int{0, 1, 2}[:1+i%3]
@@ -289,6 +306,13 @@ func c03Product(r *Run) {
 			succeeded := err == nil || err == io.EOF
 			if succeeded != (want == nil) {
 				r.Violate("product.success", "ops", "caller observes success exactly when the handler returned nil", in, got, fmt.Sprint(want))
+			}
+			if sp.Kind == "wrapped" && sp.Code != 0 {
+				// an error that WRAPS a status error (fmt.Errorf("…: %w", st.Err())) carries that status: its code
+				// (and details) reach the caller of a unary call and of a stream alike
+				if st, _ := status.FromError(err); st.Code() != codes.Code(sp.Code) {
+					r.Violate("product.wrapped", "ops", "the code of a status error wrapped by the handler (or an interceptor) must reach the caller", in, got, fmt.Sprintf("code %d", sp.Code))
+				}
 			}
 			if sp.Kind == "status" && sp.Code != 0 {
 				st, _ := status.FromError(err)
